@@ -334,7 +334,9 @@ pub fn run(env: &Env, run: &Run) -> (Stats, Coverage) {
         }
     }));
     // (b2) script / digit / punctuation tree: all rules at every position
-    let a2: Vec<char> = [0x30FBu32, 0x3042, 0x30A2, 0x6F22, 0x61, 0x660, 0x6F0, 0x5F3, 0x5F4, 0x5D0, 0x375, 0x3B1, 0xB7, 0x6C]
+    // 0x644 / 0x6CC: letters that share their UTF-8 lead byte with the two digit families (a scan
+    // done on bytes sees D9 / DB and has to look further)
+    let a2: Vec<char> = [0x30FBu32, 0x3042, 0x30A2, 0x6F22, 0x61, 0x660, 0x6F0, 0x5F3, 0x5F4, 0x5D0, 0x375, 0x3B1, 0xB7, 0x6C, 0x644, 0x6CC]
         .iter()
         .map(|c| char::from_u32(*c).unwrap())
         .collect();
@@ -539,7 +541,7 @@ pub fn run(env: &Env, run: &Run) -> (Stats, Coverage) {
         alphabet: json!({"joining": ["U+0626 D", "U+A872 L", "U+0629 R", "U+05BF T", "a", "U+094D virama", "U+200C", "U+200D"],
             "scripts": ["U+30FB", "U+3042", "U+30A2", "U+6F22", "a", "U+0660", "U+06F0", "U+05F3", "U+05F4", "U+05D0", "U+0375", "U+03B1", "U+00B7", "l"],
             "templates": tpls.iter().map(|t| json!({"rule": t.rule.name(), "label": t.label.iter().map(|o| o.map(|v| format!("U+{:04X}", v)).unwrap_or("X".into())).collect::<Vec<_>>(), "pos": t.pos})).collect::<Vec<_>>()}),
-        bound_completed: format!("sweep: all 1,112,064 scalar values x {} templates; trees: length <= {} (8 symbols), <= {} (14 symbols); registry: {}", tpls.len(), n1, n2, if exhaustive_u32 { "all 2^32 values" } else { "0..=0x1FFFFF + lattice" }),
+        bound_completed: format!("sweep: all 1,112,064 scalar values x {} templates; trees: length <= {} (8 symbols), <= {} (16 symbols); registry: {}", tpls.len(), n1, n2, if exhaustive_u32 { "all 2^32 values" } else { "0..=0x1FFFFF + lattice" }),
         exhaustive: false,
         assumptions: vec!["labels longer than the tree bound are covered only through the role templates; the rules are finite-state over (own code point, neighbour classes), every class is in the alphabet".into()],
         extra: json!({"wmethod_zwnj": wm}),
